@@ -177,7 +177,7 @@ impl SeekableDecoder {
 
         #[cfg(jubako_verif_shuttle)]
         crate::verif::pool::spawn(move || {
-            decode_to_end(decoder, write_hand, 4 * 1024).unwrap();
+            decode_in_background(decoder, write_hand);
         });
         #[cfg(not(jubako_verif_shuttle))]
         DECOMPRESSION_POOL
